@@ -13,7 +13,7 @@ CONSTANTS MaxSigners
 
 Faults == {"", "err", "empty", "nil", "bytesPerr"}
 FName(f) == IF f = "bytesPerr" THEN "bytes+err" ELSE f
-VFaults == {"", "err"}
+VFaults == {"", "err", "err1accept"}       \* err1accept: an outage on the first call; whatever is asked afterwards is answered with yes
 AlgV == [t |-> "alg", neg |-> TRUE, a |-> <<6>>]
 P1 == <<<<GoInt("int64", 1), AlgV>>>>
 Pay == <<1, 2>>
@@ -78,7 +78,9 @@ VerifyProg(shape, gs) ==
              signers |-> <<Sg(1, "")>>, buf |-> "b"],
             [op |-> "verifyhashenv", obj |-> "r", buf |-> "b", verifiers |-> <<Vf(1, gs[1])>>] >>
 \* built-in signers with an entropy source that fails at once, runs dry after k bytes (error or short reads), or is fine
-Rands == { [budget |-> 0, short |-> FALSE], [budget |-> 7, short |-> FALSE], [budget |-> 7, short |-> TRUE], [budget |-> 40, short |-> FALSE], [budget |-> 0 - 1, short |-> FALSE] }
+Rands == { [budget |-> 0, short |-> FALSE, eof |-> FALSE], [budget |-> 7, short |-> FALSE, eof |-> FALSE], [budget |-> 7, short |-> TRUE, eof |-> FALSE],
+           [budget |-> 40, short |-> FALSE, eof |-> FALSE], [budget |-> 0 - 1, short |-> FALSE, eof |-> FALSE],
+           [budget |-> 0, short |-> FALSE, eof |-> TRUE], [budget |-> 7, short |-> FALSE, eof |-> TRUE], [budget |-> 40, short |-> FALSE, eof |-> TRUE] }     \* eof: a finite source (file, pipe) that ran dry
 EntropyProgS(shape, alg, r, s) ==
   CASE shape = "sign1" ->
          << [op |-> "new", obj |-> "m", kind |-> "sign1", m |-> [P |-> <<>>, U |-> <<>>, payload |-> Pay, sig |-> <<>>]],
@@ -97,7 +99,7 @@ EntropyProgS(shape, alg, r, s) ==
 EntropyProg(shape, alg, r) == EntropyProgS(shape, alg, r, [kind |-> "builtin", name |-> "b", alg |-> alg, fault |-> ""])
 \* built-in signers over a key that fails (an HSM / KMS / agent behind crypto.Signer): error, empty or nil signature without an error
 KeyFaults == {"err", "empty", "nil"}
-KeyFaultProg(shape, alg, kf) == EntropyProgS(shape, alg, [budget |-> 0 - 1, short |-> FALSE], [kind |-> "faultykey", name |-> "b", alg |-> alg, fault |-> kf])
+KeyFaultProg(shape, alg, kf) == EntropyProgS(shape, alg, [budget |-> 0 - 1, short |-> FALSE, eof |-> FALSE], [kind |-> "faultykey", name |-> "b", alg |-> alg, fault |-> kf])
 
 OneSlot == {"sign1", "sign1u", "sign1helper", "sign1untaggedhelper", "sig", "cs", "cs0", "henv"}
 VARIABLE st
